@@ -16,7 +16,7 @@ SOURCES = {
     "local": set(), "local_maxiter": set(), "custom": {"numpy"},
 }
 ROOTS = gen.ROOT_ENGINES
-LEAVES = gen.INNER_ENGINES + gen.LEAF_ONLY
+LEAVES = gen.INNER_ENGINES + gen.LEAF_ONLY + ["lhs", "sobol"]
 
 
 def make_case(seed, idx, tier):
@@ -41,8 +41,16 @@ def make_case(seed, idx, tier):
         "lscs": ["dontstop", "melimit", "user", "children", "steady"],
         "entry": None,
     }
+    if idx % 12 == 5:
+        # the top of numpy's seed range is legal too: one CMA-ES deme sprouted in metaepoch 1 (its seed is random_seed + 1)
+        prof.update({"n_levels": 2, "leaf": ["cma", "cma_warm", "cma_stds"][(idx // 12) % 3], "sprout": "simple", "level_limit": 1, "lscs": ["dontstop"], "gsc": "melimit",
+                     "root": ["sea", "de", "shade", "sobol"][(idx // 12) % 4], "fams": ["rastrigin", "sphere"]})
     d = gen.gen_tree_case(rng, prof)
     d["options"]["random_seed"] = rng.randint(0, 10**6) if idx % 6 else 0  # 0 is a legal seed
+    if idx % 12 == 5:
+        d["options"]["random_seed"] = 2**32 - 2
+        d["sprout"]["far"] = 1e-9
+        d["gsc"] = {"k": "melimit", "n": 4}
     d["c14"] = True
     d["subprocess_hashseeds"] = ["1", "random"] if tier == "quick" else ["0", "1", "12345", "random"]
     if tier == "quick" and idx % 2:
